@@ -7,6 +7,7 @@
 //	        -> inv=N v=<view>... w=<status>|<hdrs>|<len:ck> hij=0|1 cl=ok left=N
 //
 // attempt = comma separated fields, executed by the protected handler in this order:
+// (hp:K:V append to the value slice, h0:K:V / hl:K:V overwrite first / last value in place)
 // r:all|r:N (read body; rc: via io.Copy, rn: via io.CopyN, rp: via 7-byte Reads), hs:K:V ha:K:V hd:K u:/path (mutate its request copy), rh:K:V (response
 // header), s:CODE, w:LEN.SEED ... (Write calls), fl (Flush if the writer offers it), hj (Hijack).  A view is what the handler saw on
 // entry: method|url|X-headers|cl=|te=|oh=(other headers same as incoming)|rd=bytes read|tf=temp
@@ -120,7 +121,7 @@ func parseAttempt(s string) attempt {
 			if p[1] != "all" {
 				a.read = hx.Atoi(p[1])
 			}
-		case (p[0] == "hs" || p[0] == "ha") && len(p) == 3, p[0] == "hd" && len(p) == 2:
+		case (p[0] == "hs" || p[0] == "ha" || p[0] == "hp" || p[0] == "h0" || p[0] == "hl") && len(p) == 3, p[0] == "hd" && len(p) == 2:
 			a.ops = append(a.ops, p)
 		case p[0] == "u" && len(p) == 2:
 			a.setURL = p[1]
@@ -284,6 +285,16 @@ func (s *scen) inner(w http.ResponseWriter, r *http.Request) {
 			r.Header.Add(op[1], op[2])
 		case "hd":
 			r.Header.Del(op[1])
+		case "hp": // append to the slice in place (reuses spare capacity if the slice has any)
+			r.Header[op[1]] = append(r.Header[op[1]], op[2])
+		case "h0": // overwrite the first value in place
+			if vs := r.Header[op[1]]; len(vs) > 0 {
+				vs[0] = op[2]
+			}
+		case "hl": // overwrite the last value in place
+			if vs := r.Header[op[1]]; len(vs) > 0 {
+				vs[len(vs)-1] = op[2]
+			}
 		}
 	}
 	if a.setURL != "" {
